@@ -91,6 +91,41 @@ pub fn timestamp(_cex: &Value) -> Result<String, String> {
       }
     }
   }
+  // Duration derives Deserialize over time::Duration ([seconds, nanoseconds]): negative and sub-second values exist
+  for (text, secs, nanos) in [("[-1,0]", -1i64, 0i32), ("[0,500000000]", 0, 500_000_000), ("[1,0]", 1, 0), ("[-5,-500000000]", -5, -500_000_000), ("[0,-1]", 0, -1)] {
+    if let Ok(d) = serde_json::from_str::<Duration>(text) {
+      for base in [MIN, MIN + 1, 0, MAX - 1, MAX] {
+        let t = Timestamp::from_unix(base).unwrap();
+        match no_panic(move || (t.checked_add(d).map(|x| (x.to_unix(), x.to_rfc3339())), t.checked_sub(d).map(|x| (x.to_unix(), x.to_rfc3339())))) {
+          Err(msg) => log.push(format!("[arith] checked add/sub of the deserialised duration {text} at {base} panicked: {msg}")),
+          Ok((a, b)) => {
+            for (which, got) in [("add", a), ("sub", b)] {
+              if let Some((u, text_form)) = got {
+                // whatever comes back is a whole-second instant inside the range whose text re-parses to it
+                let back = Timestamp::parse(&text_form).ok().map(|x| x.to_unix());
+                if !(MIN..=MAX).contains(&u) || back != Some(u) || Timestamp::from_unix(u).ok().map(|x| x.to_rfc3339()) != Some(text_form.clone()) {
+                  log.push(format!("[arith] {base} {which} deserialised duration {text} ({secs}s {nanos}ns): result {u} / {text_form:?} is not a canonical in-range instant"));
+                }
+              }
+            }
+          }
+        }
+      }
+    }
+  }
+  // serde: a timestamp read from JSON is the one parse() yields (UTC, whole seconds, in range)
+  for text in ["2023-06-01T12:34:56.789+01:30", "2023-06-01T12:34:56Z", "2023-06-01T00:00:00-23:59", "0000-01-01T00:00:00+00:01", "9999-12-31T23:59:59-00:01", "2023-06-01T12:34:56.999999999Z"] {
+    let via_parse = no_panic(move || Timestamp::parse(text).ok().map(|t| (t.to_unix(), t.to_rfc3339())));
+    let via_serde = no_panic(move || serde_json::from_str::<Timestamp>(&format!("\"{text}\"")).ok().map(|t| (t.to_unix(), t.to_rfc3339())));
+    match (via_parse, via_serde) {
+      (Ok(a), Ok(b)) => {
+        if a != b {
+          log.push(format!("[parse-serde] {text:?}: parse gives {a:?}, JSON deserialisation gives {b:?}"));
+        }
+      }
+      (a, b) => log.push(format!("[parse-serde] {text:?}: panicked ({:?} / {:?})", a.err(), b.err())),
+    }
+  }
   let only: Option<String> = _cex.get("only").and_then(Value::as_str).map(str::to_owned);
   let log: Vec<String> = log.into_iter().filter(|l| only.as_ref().map(|o| l.contains(o.as_str())).unwrap_or(true)).collect();
   if log.is_empty() {
